@@ -123,6 +123,7 @@ void case_impl(Ctx &c, bool ext, bool runs = false) {
       if (x.mode == 2 || x.mode == 3) for (int p = 0; p < 4; p++) { MP &m = x.mp[p]; if (m.present && m.insync) for (size_t k = 0; k < m.alt.size(); k++) { Dyn &a = m.alt[k]; a.synccnt++; if (a.synccnt == m.type) { x.tx1(p, a, 3, k == 0); a.synccnt = 0; } } }
       x.compare("SYNC");
   };
+  if (runs) { s.clear_tx(); s.rx(Frame::mk(0, 2, {1, 0})); x.mode = 3; for (int p = 0; p < 4; p++) x.activate(p); VLOG(c, "NMT -> mode 3"); for (int p = 0; p < 4; p++) for (auto &a : x.mp[p].alt) a.out.clear(); x.compare("NMT command"); }   // mode sync-runs starts in OPERATIONAL
   int steps = 0, retyped = 0, remapped = 0; uint32_t longest_run = 0;
   while (!c.t.exhausted() && steps < 200) {
     steps++; c.ops++;
@@ -146,8 +147,8 @@ void case_impl(Ctx &c, bool ext, bool runs = false) {
     } else if (op == 5) { // SYNC
       do_sync();
     } else if (op == 14) { // mode sync-runs: k SYNCs in a row - "every n-th SYNC" must hold beyond the 255th and the 65535th SYNC of one OPERATIONAL phase
-      static const uint32_t MARK[5] = {250, 256, 300, 512, 770}; uint32_t kk = c.t.below(16);
-      uint32_t k = kk < 9 ? MARK[c.t.below(5)] + c.t.below(8) : kk == 9 ? 65530 + c.t.below(600) : 1 + c.t.below(300);
+      static const uint32_t MARK[5] = {250, 256, 300, 512, 770}; uint32_t kk = c.t.below(32);
+      uint32_t k = kk < 18 ? MARK[c.t.below(5)] + c.t.below(8) : kk == 18 ? 65530 + c.t.below(600) : 1 + c.t.below(300);
       VLOG(c, "run of %u SYNCs", k);
       for (uint32_t i = 0; i < k; i++) { quiet = i >= 2; do_sync(); for (int p = 0; p < 4; p++) for (auto &a : x.mp[p].alt) a.out.clear(); } quiet = false;
       if (x.mode == 3 && k > longest_run) longest_run = k;
